@@ -2457,6 +2457,7 @@ def normalize_module(tree: ast.Module, extern=None) -> ast.Module:
                 n2.dict_key_loops(n)
         tree = Unroll().visit(tree)
         n2.unroll_reduce(tree)
+        n2.sentinel_branches(tree)
         for n in ast.walk(tree):
             if isinstance(n, ast.FunctionDef):
                 n2.split_unrolled_locals(n)
